@@ -36,6 +36,9 @@ var (
 
 	// errConnAborted replaces aborted error to prevent client IP logging
 	errConnAborted = errors.New("aborted")
+
+	// errConnOther replaces any error that is not recognized to prevent client IP logging
+	errConnOther = errors.New("other error")
 )
 
 func generalizeErr(err error) error {
@@ -62,8 +65,15 @@ func generalizeErr(err error) error {
 		}
 	}
 
-	// if it is not a well known error, return it
-	return err
+	// Anything else is reduced to its errno, if it has one, or to a fixed text:
+	// the error of a socket operation (*net.OpError) spells out both endpoints
+	// of the connection, which would put the client address into the logs and
+	// the tunnel statistics.
+	var errno syscall.Errno
+	if errors.As(err, &errno) {
+		return errno
+	}
+	return errConnOther
 }
 
 // this function is kinda ugly, uses undecorated logger, and passes things around it doesn't have to
@@ -265,7 +275,11 @@ func Proxy(reg *DecoyRegistration, clientConn net.Conn, logger *log.Logger) {
 	if reg.Flags.GetProxyHeader() {
 		err = writePROXYHeader(covertConn, clientConn.RemoteAddr().String())
 		if err != nil {
-			logger.Errorf("failed to send PROXY header: %s", err)
+			if e := generalizeErr(err); e != nil {
+				logger.Errorf("failed to send PROXY header: %s", e)
+			} else {
+				logger.Errorln("failed to send PROXY header: closed")
+			}
 			return
 		}
 	}
